@@ -1,11 +1,24 @@
 (* Regenerated obligations for C17 (the lookup of the plan by operation name is an exact comparison, first match in document order). *)
 From Coq Require Import String.
 From Gen Require Import Skeletons.
-From GW Require Import VerifiedDecisions Verified.
+From GW Require Import VerifiedDecisions Verified VerifiedBodies.
 
 Lemma plan_ForOperation_skeleton : gen_plan_ForOperation = verified_plan_ForOperation.
 Proof. reflexivity. Qed.
 
 (* Gateway.Execute: a single plan is run whatever the name; otherwise the name is required and looked up *)
 Lemma gateway_Execute_skeleton : gen_gateway_Execute = verified_gateway_Execute.
+Proof. reflexivity. Qed.
+
+(* bodies with their conditions (VerifiedBodies.v) *)
+Lemma plan_generateScrubFields_body : gen_plan_generateScrubFields = verified_plan_generateScrubFields.
+Proof. reflexivity. Qed.
+
+Lemma plan_Plan_body : gen_plan_Plan = verified_plan_Plan.
+Proof. reflexivity. Qed.
+
+Lemma gateway_Execute_cond_body : gen_gateway_Execute_cond = verified_gateway_Execute_cond.
+Proof. reflexivity. Qed.
+
+Lemma gateway_GetPlans_body : gen_gateway_GetPlans = verified_gateway_GetPlans.
 Proof. reflexivity. Qed.
